@@ -155,7 +155,27 @@ func c11Paths(repr string, want []byte) map[string]any {
 		}
 	}
 	n, same := c11Seen(r2, want)
-	out["eval"] = map[string]any{"diags": nd, "n": n, "same": c11Flag(same)}
+	ev := map[string]any{"diags": nd, "n": n, "same": c11Flag(same)}
+	out["eval"] = ev
+	// the same document while only CHECKING, without and with showSecrets: an envelope is judged by the same decoder on
+	// every route, so the number of error diagnostics must be the one of the evaluation (the recording decrypter never
+	// fails; without showSecrets it is not even called).  Reported next to the evaluation's count.
+	for i, show := range []bool{false, true} {
+		env2, d2, err2 := eval.LoadYAMLBytes("doc", doc)
+		if err2 != nil || d2.HasErrors() {
+			continue
+		}
+		r3 := &c11Recorder{}
+		ec3, _ := esc.NewExecContext(map[string]esc.Value{})
+		_, cdiags := eval.CheckEnvironment(context.Background(), "doc", env2, r3, nil, nil, ec3, show)
+		cn := 0
+		for _, d := range cdiags {
+			if d.Severity == 1 {
+				cn++
+			}
+		}
+		ev[[]string{"check_diags", "check_show_diags"}[i]] = cn
+	}
 	return out
 }
 
